@@ -6,6 +6,7 @@ import (
 	"go/types"
 	"os"
 	"sort"
+	"strings"
 
 	"golang.org/x/tools/go/ssa"
 )
@@ -469,6 +470,11 @@ func (a *Act) callMods(li *loopInfo, m *modSet, c ssa.CallInstruction, depth int
 			if fc := a.top.fc; fc != nil && fc.CallbackRank != nil {
 				for _, h := range []string{traceLen, traceKind, traceArg0, traceArg1, traceErr} {
 					m.heap(h, traceSorts[h]).unknown = true
+				}
+				for h, srt := range a.u.heapSort {
+					if strings.HasPrefix(h, "T_arg_") {
+						m.heap(h, srt).unknown = true
+					}
 				}
 			}
 			return
